@@ -246,7 +246,7 @@ def opInverse (e : Entry) : RM Res := do
     -- C04: continuation contracts
     if (e == .invc || e == .invc5) && !hasPara k then
       let refv := k.core.reference prev
-      if refv.allFinite && refv.toList.all (fun x => x.abs ≤ 2.0 * piF + 1e-9) then
+      if refv.allFinite && refv.toList.all (fun x => x.abs ≤ 4.0 * piF - 1e-9) then
         let solsN := if e == .invc5 then sols.map (fun s => { s with j6 := refv.j6 }) else sols
         preds := preds ++ [("C04.nearest", solsN.all (fun s => nearestRep s refv), "angle not the nearest representative")]
       if refv.allFinite then
